@@ -296,9 +296,13 @@ theorem C16_strict_panic_witness :
    each matcher: `wordRest`, `word`, `fieldName`, `range`, `set`, `exists_`, `regex`, `simpleTerm`,
    `plainLiteral`, `pLeaf`, `pOccurLeaf`, `pAst`, for every fuel ≥ 3); (2) the documented concrete
    forms below as kernel-checked evaluations; (3) operand lists of plain words with markers and
-   AND/OR for every layout choice (`C16_print_parse_operands`, by induction). (4) nested parenthesised lists to any
-   depth (`C16_print_parse_nested`). Still open: field prefixes, quoted phrases, ranges, sets, boosts
-   and `NOT` inside the ∀ form, escapes. -/
+   AND/OR for every layout choice (`C16_print_parse_operands`, by induction). (4) the well-formed
+   fragment `WFOpd` (`C16_print_parse_nested`): parenthesised lists nested to any depth whose operands
+   are words, quoted phrases of any characters (printed with escapes) with slop / prefix star, field
+   prefixes, bracketed and elastic ranges, sets, `*`, `name:*`, `NOT x`.
+   Still open in the ∀ form: boosts `x^2` (the remainder class `Rem` after a leaf would have to admit
+   `^`), escapes inside unquoted words, single-quoted phrases, regex leaves, `name:(group)`, negative
+   numbers, `*` as a range bound, blanks inside elastic ranges, unicode blanks as separators. -/
 /-- **print/parse at leaf level, for all words**: the strict parser (with or without the guard)
     reads a word of ASCII letters and digits that is not `OR`/`AND`/`NOT`/`IN` as the unfielded,
     unquoted literal with exactly that text -/
